@@ -429,17 +429,54 @@ func (g *Gen) Args() ([]ast.Vertex, []*token.Token) {
 	return args, seps
 }
 
-var semiReserved = []struct {
+type kwSpec struct {
 	id token.ID
 	s  string
-}{{token.T_LIST, "list"}, {token.T_FOR, "for"}, {token.T_PRINT, "print"}, {token.T_NEW, "new"}, {token.T_DEFAULT, "default"}, {token.T_FUNCTION, "function"}, {token.T_ARRAY, "array"}}
+}
+
+// reservedNonModifiers transcribes PHP 7's reserved_non_modifiers list (zend_language_parser.y): the
+// keywords that may be used as class-constant, method and trait-alias names. "class" is left out
+// (Foo::class is a different construct and "const class" is a compile error).
+var reservedNonModifiers = []kwSpec{
+	{token.T_INCLUDE, "include"}, {token.T_INCLUDE_ONCE, "include_once"}, {token.T_EVAL, "eval"}, {token.T_REQUIRE, "require"},
+	{token.T_REQUIRE_ONCE, "require_once"}, {token.T_LOGICAL_OR, "or"}, {token.T_LOGICAL_XOR, "xor"}, {token.T_LOGICAL_AND, "and"},
+	{token.T_INSTANCEOF, "instanceof"}, {token.T_NEW, "new"}, {token.T_CLONE, "clone"}, {token.T_EXIT, "exit"}, {token.T_EXIT, "die"},
+	{token.T_IF, "if"}, {token.T_ELSEIF, "elseif"}, {token.T_ELSE, "else"}, {token.T_ENDIF, "endif"}, {token.T_ECHO, "echo"},
+	{token.T_DO, "do"}, {token.T_WHILE, "while"}, {token.T_ENDWHILE, "endwhile"}, {token.T_FOR, "for"}, {token.T_ENDFOR, "endfor"},
+	{token.T_FOREACH, "foreach"}, {token.T_ENDFOREACH, "endforeach"}, {token.T_DECLARE, "declare"}, {token.T_ENDDECLARE, "enddeclare"},
+	{token.T_AS, "as"}, {token.T_TRY, "try"}, {token.T_CATCH, "catch"}, {token.T_FINALLY, "finally"}, {token.T_THROW, "throw"},
+	{token.T_USE, "use"}, {token.T_INSTEADOF, "insteadof"}, {token.T_GLOBAL, "global"}, {token.T_VAR, "var"}, {token.T_UNSET, "unset"},
+	{token.T_ISSET, "isset"}, {token.T_EMPTY, "empty"}, {token.T_CONTINUE, "continue"}, {token.T_GOTO, "goto"},
+	{token.T_FUNCTION, "function"}, {token.T_CONST, "const"}, {token.T_RETURN, "return"}, {token.T_PRINT, "print"},
+	{token.T_YIELD, "yield"}, {token.T_LIST, "list"}, {token.T_SWITCH, "switch"}, {token.T_ENDSWITCH, "endswitch"},
+	{token.T_CASE, "case"}, {token.T_DEFAULT, "default"}, {token.T_BREAK, "break"}, {token.T_ARRAY, "array"},
+	{token.T_CALLABLE, "callable"}, {token.T_EXTENDS, "extends"}, {token.T_IMPLEMENTS, "implements"}, {token.T_NAMESPACE, "namespace"},
+	{token.T_TRAIT, "trait"}, {token.T_INTERFACE, "interface"},
+	{token.T_CLASS_C, "__CLASS__"}, {token.T_TRAIT_C, "__TRAIT__"}, {token.T_FUNC_C, "__FUNCTION__"}, {token.T_METHOD_C, "__METHOD__"},
+	{token.T_LINE, "__LINE__"}, {token.T_FILE, "__FILE__"}, {token.T_DIR, "__DIR__"}, {token.T_NS_C, "__NAMESPACE__"}, {token.T_FN, "fn"},
+}
+
+// semiReserved = reserved_non_modifiers + the member modifiers.
+var semiReserved = append(append([]kwSpec{}, reservedNonModifiers...),
+	kwSpec{token.T_STATIC, "static"}, kwSpec{token.T_ABSTRACT, "abstract"}, kwSpec{token.T_FINAL, "final"},
+	kwSpec{token.T_PRIVATE, "private"}, kwSpec{token.T_PROTECTED, "protected"}, kwSpec{token.T_PUBLIC, "public"})
+
+// kwIdent draws an identifier spelled as a (semi-)reserved word (PHP 7 only), in any letter case.
+func (g *Gen) kwIdent(modifiersToo bool) *ast.Identifier {
+	pool := reservedNonModifiers
+	if modifiersToo {
+		pool = semiReserved
+	}
+	k := pool[g.intn(len(pool), "kw")]
+	g.feat("semi-reserved-member")
+	g.feat("semi-reserved:" + k.s)
+	return g.identTok(g.kw(k.id, k.s))
+}
 
 // memberName draws the name after "::" (identifier, possibly a semi-reserved word under PHP 7).
 func (g *Gen) memberName() *ast.Identifier {
 	if g.O.PHP7 && !g.O.Common && g.chance(1, 8, "semireserved") {
-		k := semiReserved[g.intn(len(semiReserved), "kw")]
-		g.feat("semi-reserved-member")
-		return g.identTok(g.kw(k.id, k.s))
+		return g.kwIdent(true)
 	}
 	return g.Ident(g.plainName())
 }
